@@ -17,10 +17,16 @@ class Deadlock(Exception):
     pass
 
 
+# After a few runs in one worker process have dead-locked (a tree on which the code under test blocks
+# on something the scheduler cannot see), further runs fail fast instead of waiting out the timeout again.
+_DEADLOCKS = [0]
+FAST_FAIL_AFTER = 3
+
+
 class LineScheduler(object):
-    def __init__(self, files, timeout=20):
+    def __init__(self, files, timeout=8):
         self.files = tuple(files)
-        self.timeout = timeout
+        self.timeout = timeout if _DEADLOCKS[0] < FAST_FAIL_AFTER else 0.5
         self.sems = []
         self.ctrl = threading.Semaphore(0)
         self.done = []
@@ -100,6 +106,7 @@ class LineScheduler(object):
             th.start()
         for _ in range(n):
             if not self.ctrl.acquire(timeout=self.timeout):
+                _DEADLOCKS[0] += 1
                 raise Deadlock("thread did not reach its first gate")
         import collections
         pending = collections.deque(schedule)
@@ -108,6 +115,7 @@ class LineScheduler(object):
         while not all(self.done):
             enabled = [t for t in range(n) if not self.done[t] and not (t in self.blocked and self.blocked[t]())]
             if not enabled:
+                _DEADLOCKS[0] += 1
                 raise Deadlock("all unfinished threads are blocked: %r" % ([(t, self.last_pos[t]) for t in range(n) if not self.done[t]],))
             t = None
             while pending:
@@ -128,6 +136,7 @@ class LineScheduler(object):
             self.current = t
             self.sems[t].release()
             if not self.ctrl.acquire(timeout=self.timeout):
+                _DEADLOCKS[0] += 1
                 raise Deadlock("thread %d did not yield (at %r)" % (t, self.last_pos[t]))
             steps += 1
             if steps > 200000:
